@@ -638,6 +638,7 @@ class Prov:
         self._closure_inv[fn.key] = None
         res = None
         root = fn.key.split("::{closure")[0]
+        found = []
         for g in self.facts.lexical(root):
             if g.key == fn.key:
                 continue
@@ -647,10 +648,10 @@ class Prov:
                     continue
                 o = peel(self.operand(g, t["args"][0], (b, "t")))
                 if o[0] == "closure" and o[1] == fn.key:
-                    res = (g, b, t)
-                    break
-            if res:
-                break
+                    found.append((g, b, t))
+        # only an unambiguous invocation binds the parameters (several call sites may pass different values)
+        if len(found) == 1:
+            res = found[0]
         self._closure_inv[fn.key] = res
         return res
 
